@@ -302,6 +302,7 @@ func c13Generic(c *runner.Ctx, src string, err error, where string) {
 func c13Case(c *runner.Ctx, idx uint64) {
 	r := c.R
 	g := term.NewGen(r, false)
+	g.NoElvis = true
 	var t *term.Term
 	func() {
 		defer func() {
@@ -437,6 +438,7 @@ func c13Case(c *runner.Ctx, idx uint64) {
 func c13Syntax(c *runner.Ctx, idx uint64) {
 	r := c.R
 	g := term.NewGen(r, false)
+	g.NoElvis = true
 	var t *term.Term
 	func() {
 		defer func() { recover() }()
